@@ -192,6 +192,8 @@ pub fn replay_graph(path: &str) {
     let mut n_contract = 0u64;
     let mut n_shape = 0u64;
     let mut n_unreached = 0u64;
+    let mut n_ref = 0u64;
+    let mut n_refchecks = 0u64;
     let mut examples: Vec<String> = vec![];
     let mut keys: Vec<&String> = states.keys().collect();
     keys.sort();
@@ -218,6 +220,54 @@ pub fn replay_graph(path: &str) {
                 n_shape += 1;
                 if examples.len() < 5 {
                     examples.push(format!("{{\"class\":\"shape\",\"at\":\"path to state\",\"state\":{},\"got\":{}}}", canon(&v["t"]), shape(r.tree.as_ref().unwrap())));
+                }
+            }
+            // reference stability, exhaustively: references handed out by two successive lookups
+            // (to any ordered pair of stored keys) must still denote the same elements after
+            // every further lookup from this state
+            {
+                let keys_here: Vec<i64> = {
+                    let r = build();
+                    let mut ks = vec![];
+                    let t = r.tree.as_ref().unwrap();
+                    let mut cur = t.min().copied();
+                    while let Some(k) = cur {
+                        ks.push(k);
+                        cur = t.next(&k).map(|kv| *kv.0);
+                    }
+                    ks
+                };
+                for &k1 in &keys_here {
+                    for &k2 in &keys_here {
+                        let r = build();
+                        let t = r.tree.as_ref().unwrap();
+                        let sset = r.set.as_ref().unwrap();
+                        let (rk1, rv1) = (t.find_key(&k1).unwrap(), t.get(&k1).unwrap());
+                        let v1 = *rv1;
+                        let rk2 = if k2 != k1 { t.find_key(&k2) } else { t.next(&k1).map(|kv| kv.0) };
+                        let k2v = rk2.copied();
+                        let s1 = sset.find(&k1).unwrap();
+                        let lo = keys_here[0] - 1;
+                        let hi = keys_here[keys_here.len() - 1] + 1;
+                        for probe in lo..=hi {
+                            let _ = t.get(&probe);
+                            let _ = t.next(&probe);
+                            let _ = t.prev(&probe);
+                            let _ = t.contains(&probe);
+                            let _ = t.find_key(&probe);
+                            let _ = sset.contains(&probe);
+                            let _ = sset.next(&probe);
+                            let _ = sset.prev(&probe);
+                            n_refchecks += 1;
+                            if *rk1 != k1 || *rv1 != v1 || rk2.copied() != k2v || *s1 != k1 {
+                                n_ref += 1;
+                                if examples.len() < 5 {
+                                    examples.push(format!("{{\"class\":\"reference\",\"state\":{},\"held\":[{},{}],\"after_lookups_up_to\":{},\"now_reads\":[{},{}]}}", canon(&v["t"]), k1, k2, probe, *rk1, *s1));
+                                }
+                                break;
+                            }
+                        }
+                    }
                 }
             }
             for tr in v["trans"].as_array().unwrap() {
@@ -272,8 +322,8 @@ pub fn replay_graph(path: &str) {
     }
     let _ = shape_set;
     println!(
-        "{{\"states\":{},\"transitions\":{},\"contract_mismatches\":{},\"shape_mismatches\":{},\"unreached\":{},\"examples\":[{}]}}",
-        states.len(), n_trans, n_contract, n_shape, n_unreached, examples.join(",")
+        "{{\"states\":{},\"transitions\":{},\"contract_mismatches\":{},\"shape_mismatches\":{},\"unreached\":{},\"reference_checks\":{},\"reference_mismatches\":{},\"examples\":[{}]}}",
+        states.len(), n_trans, n_contract, n_shape, n_unreached, n_refchecks, n_ref, examples.join(",")
     );
 }
 
